@@ -2457,7 +2457,7 @@ func (p *densePlan) proveAllSet(r *runner, present [][]byte) [][]byte {
 func TestDenseEventRoot(t *testing.T) {
 	rapid.Check(t, func(t *rapid.T) {
 		seed := rapid.Uint64().Draw(t, "seed")
-		n := rapid.SampledFrom([]int{500, 900, 300}).Draw(t, "events")
+		n := pick(t, []int{700, 400, 1000}, "events")
 		var events []*blockchain.Event
 		for i := 0; i < n; i++ {
 			nt := 1 + int(expand(seed, "nt", i, 1)[0])%4
